@@ -1,6 +1,6 @@
 From A1 Require Import Base.Res.
 From A1 Require Export Extract.OpsDer.
-From A1 Require Extract.OpsBits.
+From A1 Require Extract.OpsBits Extract.OpsPer Extract.OpsUper Extract.OpsLex Extract.OpsIntTy Extract.OpsTags Extract.OpsParse Extract.OpsCodegen Extract.OpsProto.
 Local Open Scope Z_scope.
 
 (* top-level dispatcher; op code ranges per layer *)
@@ -10,6 +10,14 @@ Definition run (dev : bool) (op : Z) (args : list Z) : list Z :=
   let m := mode_of dev in
   if (2000 <=? op) && (op <? 2100) then run_der op args
   else if (1100 <=? op) && (op <? 1200) then OpsBits.run_bits m op args
+  else if (1000 <=? op) && (op <? 1100) then OpsPer.run_per m op args
+  else if (1200 <=? op) && (op <? 1300) then OpsUper.run_uper m op args
+  else if (3000 <=? op) && (op <? 3100) then OpsLex.run_lex m op args
+  else if (3100 <=? op) && (op <? 3200) then OpsIntTy.run_intty m op args
+  else if (3200 <=? op) && (op <? 3300) then OpsTags.run_tags m op args
+  else if (3300 <=? op) && (op <? 3400) then OpsParse.run_parse m op args
+  else if (3400 <=? op) && (op <? 3500) then OpsCodegen.run_codegen m op args
+  else if (4000 <=? op) && (op <? 4200) then OpsProto.run_proto m op args
   else [-1].
 
 Fixpoint list_z_eqb (a b : list Z) : bool :=
